@@ -328,6 +328,13 @@ fn strategy() -> BoxedStrategy<AttrCase> {
             if positional_cb.is_none() {
                 named.extend(cb);
             }
+            // one case in eight gives allow_greedy twice with opposite values: whatever the derive makes of it, it has to make
+            // the same of both orders
+            if let Some(g) = &greedy {
+                if (perm_seed >> 17) % 8 == 0 {
+                    named.push(if g.ends_with("true") { "allow_greedy = false".to_string() } else { "allow_greedy = true".to_string() });
+                }
+            }
             named.extend(greedy);
             named.extend(ign);
             // drop duplicate item kinds (utf8 twice, error twice ...) and fix dependencies: ws before ws2 / (?&ws) users
